@@ -54,6 +54,14 @@ def generate_source_code(docstring, parsed):
     if not rules:
         raise Exception('Expected one or more grammar rules.')
 
+    # Anonymous rules are named after their position in the chain of grammars, so
+    # that they cannot collide with the anonymous rules of an ancestor.
+    depth, num_anonymous = 0, 0
+    ancestor = parsed.extends
+    while ancestor is not None:
+        depth += 1
+        ancestor = ancestor.extends
+
     visited_names = set()
     for rule in rules:
         if rule.name is not None and rule.name.startswith('_'):
@@ -63,7 +71,8 @@ def generate_source_code(docstring, parsed):
             )
 
         if not rule.name:
-            rule.name = f'_anonymous_{id(rule)}'
+            num_anonymous += 1
+            rule.name = f'_anonymous_{depth}_{num_anonymous}'
 
         if rule.name in visited_names:
             raise Exception(
